@@ -80,29 +80,7 @@ func (r *real) ExecHint(line string) (out string, twinLine string) {
 		s.Topo.AddTarget("t"+args[0], pers == "1")
 		return "ok", line
 	case "v2.fault":
-		switch args[0] {
-		case "relup":
-			s.Topo.AddRelation("rel-"+args[1], "t"+args[2])
-			s.Devs.Conns["rel-"+args[1]] = "t" + args[2]
-		case "reldown":
-			s.Topo.RemoveObject("rel-" + args[1])
-			delete(s.Devs.Conns, "rel-"+args[1])
-		case "conndown":
-			delete(s.Devs.Conns, "rel-"+args[1])
-		case "connup":
-			if o, err := s.Topo.Get(context.Background(), topoapi.ID("rel-"+args[1])); err == nil {
-				s.Devs.Conns["rel-"+args[1]] = string(o.GetRelation().TgtEntityID)
-			}
-		case "devrestart":
-			// the device restarts empty and every connection to it is lost
-			s.Devs.State["t"+args[1]] = map[string]string{}
-			for id, t := range s.Devs.Conns {
-				if t == "t"+args[1] {
-					delete(s.Devs.Conns, id)
-				}
-			}
-			s.Topo.RemoveRelationsTo("t" + args[1])
-		default:
+		if !r.applyFault(args) {
 			return "bad-op", line
 		}
 		// topology events as the topo watchers of the mastership and configuration controllers map them
@@ -197,9 +175,23 @@ func (r *real) ExecHint(line string) (out string, twinLine string) {
 				if j != k || ires != nil {
 					return
 				}
-				r2 := s.Run(bid, v2sys.RunOpts{Plugin: "ok", Dev: "ok", SyncOK: 1000000, InjectAt: -1})
+				// items joined by '+': environment faults (F.<kind>.<args>) and at most one reconcile id, last
+				items := strings.Split(bid, "+")
+				for _, it := range items[:len(items)-1] {
+					if strings.HasPrefix(it, "F.") {
+						r.applyFault(strings.Split(strings.TrimPrefix(it, "F."), "."))
+					}
+				}
+				rid := items[len(items)-1]
+				if strings.HasPrefix(rid, "F.") {
+					r.applyFault(strings.Split(strings.TrimPrefix(rid, "F."), "."))
+					ires = &v2sys.Result{Requeue: "-"}
+					interMid = midState(s.State())
+					return
+				}
+				r2 := s.Run(rid, v2sys.RunOpts{Plugin: "ok", Dev: "ok", SyncOK: 1000000, InjectAt: -1})
 				ires = &r2
-				interHints = hintsFor(s, bid, "i.")
+				interHints = hintsFor(s, rid, "i.")
 				interMid = midState(s.State())
 			}
 		}
@@ -286,4 +278,35 @@ func midState(state string) string {
 		return "-"
 	}
 	return strings.Join(parts, "+")
+}
+
+// applyFault performs one environment fault (args as after `v2.fault`).
+func (r *real) applyFault(args []string) bool {
+	s := r.s
+	switch args[0] {
+	case "relup":
+		s.Topo.AddRelation("rel-"+args[1], "t"+args[2])
+		s.Devs.Conns["rel-"+args[1]] = "t" + args[2]
+	case "reldown":
+		s.Topo.RemoveObject("rel-" + args[1])
+		delete(s.Devs.Conns, "rel-"+args[1])
+	case "conndown":
+		delete(s.Devs.Conns, "rel-"+args[1])
+	case "connup":
+		if o, err := s.Topo.Get(context.Background(), topoapi.ID("rel-"+args[1])); err == nil {
+			s.Devs.Conns["rel-"+args[1]] = string(o.GetRelation().TgtEntityID)
+		}
+	case "devrestart":
+		// the device restarts empty and every connection to it is lost
+		s.Devs.State["t"+args[1]] = map[string]string{}
+		for id, t := range s.Devs.Conns {
+			if t == "t"+args[1] {
+				delete(s.Devs.Conns, id)
+			}
+		}
+		s.Topo.RemoveRelationsTo("t" + args[1])
+	default:
+		return false
+	}
+	return true
 }
